@@ -107,6 +107,10 @@ Fixpoint limit_fault_from (ops : list op) (limit : N) (ks ki : nat) : option fau
   end.
 Definition limit_fault (p : plan) (limit : N) : option fault := limit_fault_from (seal_ops p) limit 0 0.
 
+(* executable form of the hypothesis [inv] of the crash theorems *)
+Definition invb (p : plan) (s : fs) : bool :=
+  intact (s Docs) && intact (s Meta) && (if skip_sort p then negb (has s Sdocs) else negb (has s Index)).
+
 (* model output = implementation output *)
 Definition case_agrees (c : case) : bool :=
   match c with
@@ -114,7 +118,7 @@ Definition case_agrees (c : case) : bool :=
   | CCrash p init j n keep before kind after served =>
       let s := crash_state (fst (seal p None)) (init_fs init) j n (keep_fn keep) in
       let r := load s in
-      fsz_eqb (sizes s) before && lkind_eqb (fst r) kind && list_eqb fname_eqb (names (snd r)) after
+      invb p (init_fs init) && fsz_eqb (sizes s) before && lkind_eqb (fst r) kind && list_eqb fname_eqb (names (snd r)) after
       && Bool.eqb served (serves_all p r)
   | CFault p k n impl_err impl_writes =>
       let r := seal p (Some (mkFault IndexTmp k n)) in
@@ -149,7 +153,7 @@ Definition case_spec_ok (c : case) : bool :=
       impl_err || (k =? 0)%nat || (total_index_writes p <? k)%nat
   | CLimit p init limit died ops =>
       match limit_fault p limit with
-      | Some x => died && no_publish ops
+      | Some x => no_publish ops   (* whether the process ends or lives on is not the property's business *)
                   && (negb (fname_eqb (ftarget x) SdocsTmp)
                       || forallb (fun o => match o with ORename SdocsTmp Sdocs => false | _ => true end) ops)
       | None => true
